@@ -45,6 +45,7 @@ def run(ctx: Ctx):
     # "ids that name nothing are ignored" in an explicit order: a stale key (unknown string, out-of-range or NEGATIVE position)
     # of an array dimension must not resolve to an item - wrapped around to the last item it moves that item
     c09.stale_reference_table(ctx, "explicit-order.stale-reference")
+    order_spec_ids_by_type(ctx)
     from .common import id_truthiness
 
     id_truthiness(ctx)
@@ -522,3 +523,56 @@ def position_truthiness(ctx: Ctx):
                      "position 0 (the first element of the order) is falsy: its subtotals / derived items fall into the 'absent' branch")
     if not hits:
         ctx.held("position-truthiness", "package: every truth test", f"{n_pos} position-valued expressions, none truth-tested", "", "positive control: 3 of 3 recognised")
+
+
+def order_spec_ids_by_type(ctx: Ctx):
+    """The ids an `_OrderSpec` hands to the collators (explicit order, fixed top / bottom) are matched against element ids AS
+    THEY ARE.  For a SHIMMED dimension (sub-variable, numeric-array and DATETIME dimensions: `DT.SHIMMED_TYPES`) they are
+    the shim's output already - aliases, datetime values such as "2000" - and any re-interpretation (an `int(...)` of a
+    digit string) makes them match nothing: the order is silently ignored.  Decision table over DIMENSION_TYPE of the type
+    guards in front of every path that converts an id."""
+    from ..dectab import DTop, Raises
+    from ..symex import expand, strip_ifexp_paths
+    from ..typetab import dt_members, dt_value, eval_over_types
+
+    ci = ctx.repo.cls("dimension.py", "_OrderSpec")
+    try:
+        shimmed = dt_value(ctx.repo, "SHIMMED_TYPES")
+    except DTop:
+        shimmed = frozenset({"CA_SUBVAR", "MR_SUBVAR", "NUM_ARRAY", "DATETIME"})
+    for member in ("element_ids", "top_fixed_ids", "bottom_fixed_ids"):
+        where = f"dimension.py::_OrderSpec.{member}"
+        if ctx.repo.lookup(ci, member) is None:
+            ctx.undecided("explicit-order.ids-as-they-are", where, "member not found", "")
+            continue
+        e = expand(ctx.repo, ci, member, stop=lambda m: m.kind in ("lazyproperty", "property") and m.name != member)
+        converting = []
+        for guards, leaf in strip_ifexp_paths(e):
+            conv = [u(c)[:40] for c in ast.walk(leaf) if isinstance(c, ast.Call) and u(c.func) in ("int", "float", "str", "np.int64")]
+            if conv:
+                converting.append((guards, conv))
+        ctx.count("order-spec id accessors")
+        if not converting:
+            ctx.held("explicit-order.ids-as-they-are", where, "no path converts an id", "ids reach the collator as they are")
+            continue
+        bad = []
+        try:
+            for mem in sorted(shimmed):
+                for guards, conv in converting:
+                    reachable = True
+                    for t, pol in guards:
+                        if "dimension_type" not in u(t):
+                            continue  # a data-dependent guard: may hold
+                        atoms = {"self._dimension.dimension_type": mem, "self._dimension_type": mem, "self.dimension_type": mem}
+                        if bool(eval_over_types(ctx.repo, ci.module, t, atoms)) != pol:
+                            reachable = False
+                            break
+                    if reachable:
+                        bad.append(f"{mem}: {conv[0]}")
+                        break
+        except (DTop, Raises, KeyError) as exc:
+            ctx.undecided("explicit-order.ids-as-they-are", where, f"DECTAB: {exc}", "table over DT.SHIMMED_TYPES")
+            continue
+        ctx.ob("explicit-order.ids-as-they-are", where, bad or "conversions are confined to non-shimmed dimension types", "the ids of a shimmed dimension (incl. DATETIME) are not re-interpreted", not bad,
+               "a yearly datetime element id is the string '2000': read as the int 2000 it matches no element and the explicit order is ignored")
+    ctx.require_min("order-spec id accessors", 3)
